@@ -82,3 +82,49 @@ idx = np.argwhere(d > 1e-8*scale)
 out = {'n_different': int(len(idx)), 'scale': float(scale),
        'first': [{'row': int(i), 'col': int(j), 'cone_at_alpha0': float(cone[i, j]), 'cylinder': float(cyl[i, j])} for i, j in idx[:8]]}
 '''
+
+PSD = COMMON + r"""
+cc = make(payload)
+cc._calc_linear_matrices()
+k0 = np.asarray(cc.k0.todense())
+w = np.linalg.eigvalsh((k0 + k0.T)/2)
+out = {'min_eig': float(w[0]), 'max_eig': float(w[-1]), 'n_negative': int((w < -1e-9*abs(w[-1])).sum()), 'asym': float(abs(k0 - k0.T).max())}
+"""
+
+HESSIAN_ALL = COMMON + r"""
+payload = dict(payload); payload.setdefault('nx', 1201); payload.setdefault('nt', 64)
+cc = make(payload)
+cc._calc_linear_matrices()
+k0 = np.asarray(cc.k0.todense())
+F = np.asarray(cc.F, dtype=float)
+md = get_model(cc.model)
+size = cc.get_size()
+nx, nt = payload['nx'], payload['nt']
+xs1 = np.linspace(0, cc.L, nx); ts1 = np.linspace(0, 2*np.pi, nt, endpoint=False)
+X, T = np.meshgrid(xs1, ts1, indexing='ij')
+kin = 1 if 'sanders' in cc.model else 0
+c0 = np.zeros(1)
+E = []
+for A in range(size):
+    outp = []
+    for sg in (1., -1.):
+        c = np.zeros(size); c[A] = sg*1e-6
+        es = md['commons'].fstrain(c, cc.sina, cc.cosa, cc.tLArad, X.ravel().copy(), T.ravel().copy(), cc.r2, cc.L,
+                                   cc.m1, cc.m2, cc.n2, c0, 0, 0, 2, kin)
+        outp.append(np.asarray(es).reshape(-1, md['e_num']))
+    E.append((outp[0] - outp[1])/2e-6)
+r = (cc.r2 + X*cc.sina).ravel()
+w = np.ones(nx); w[1:-1:2] = 4; w[2:-1:2] = 2; w *= (xs1[1]-xs1[0])/3.
+W = (w[:, None]*np.ones(nt)[None, :]*(2*np.pi/nt)).ravel()*r
+bad = []
+scale = abs(k0).max()
+for A in range(size):
+    if A == 2: continue
+    FA = E[A] @ F
+    for B in range(A, size):
+        if B == 2: continue
+        H = float(np.sum(np.sum(FA*E[B], axis=1)*W))
+        if abs(H - k0[A, B]) > 2e-3*max(abs(H), abs(k0[A, B])) + 1e-9*scale:
+            bad.append({'A': A, 'B': B, 'k0': float(k0[A, B]), 'energy_hessian': H})
+out = {'size': size, 'n_mismatch': len(bad), 'first': bad[:8]}
+"""
